@@ -1511,3 +1511,260 @@ Proof.
     apply C. rewrite <- Hh, <- Eph. apply (validProposal_commits _ _ _ _ Evp).
 Qed.
 End StorageInvProofs.
+
+Section StorageInvProofs2.
+Variable c : ncfg.
+Variable wm : option hv.
+Variable shut : bool.
+
+(* C09, first sentence: the proof a prepared node puts into its VIEW_CHANGE is valid for any later view, and comes
+   with the block it certifies; the extractor never fails and never panics in a state satisfying the invariant *)
+Lemma extract_proof_spec x pv target : SInv c x -> t_prepared (tc_t x) = Some pv -> pv < target ->
+  exists p b, extract_proof c (tc_t x) pv = (Some (p, Some b), false) /\
+              proof_spec c (t_cm (tc_t x)) (t_h (tc_t x)) target p /\ r_view (pf_ppref p) = pv /\
+              commitsTo (t_h (tc_t x)) (Some b) (r_hash (pf_ppref p)) = true.
+Proof.
+  intros I Hp Hlt. destruct (si_prep _ _ I pv Hp) as (e & b & G1 & G2 & G3 & G4).
+  destruct (si_pp _ _ I pv e G1) as [[P1 P2 P3 P4 P5 P6 P7] _].
+  unfold extract_proof. rewrite G1, G4. cbn [negb].
+  set (ps := bucket (t_p (tc_t x)) pv (r_hash (pe_ref e))) in *.
+  assert (Hex : existsb (fun en => fst (fst en) =? pv) (t_p (tc_t x)) = true).
+  { assert (exists s0, In s0 ps) as [s0 Hs0] by (destruct ps as [|s0 l]; [congruence|exists s0; left; reflexivity]).
+    apply existsb_exists. subst ps. apply In_bucket in Hs0.
+    exists (pv, r_hash (pe_ref e), s0). split; [exact Hs0|]. cbn. apply N.eqb_refl. }
+  rewrite Hex. cbn [negb].
+  assert (Hm : forall (A : Type) (u w : A), match ps with [] => u | _ :: _ => w end = w) by (intros A u w; destruct ps; [congruence|reflexivity]).
+  rewrite Hm.
+  eexists _, b. rewrite G2. split; [reflexivity|]. cbn [pf_ppref pf_ppsnd pf_pref pf_psnds r_view r_hash].
+  split; [|split; [exact P1|]].
+  - constructor; cbn [pf_ppref pf_ppsnd pf_pref pf_psnds r_type r_inst r_height r_view r_hash]; auto.
+    + rewrite P1. exact Hlt.
+    + rewrite P1. auto.
+    + intros s Hs. apply (Permutation_in _ (sort_by_perm s_id ps)) in Hs. subst ps. apply In_bucket in Hs.
+      destruct (si_p _ _ I _ _ _ Hs) as (A & B & C). repeat split; auto. rewrite P6. exact C.
+    + apply (Permutation_NoDup (l := map s_id ps)); [apply Permutation_map, Permutation_sym, sort_by_perm|]. subst ps. apply (si_p_nodup _ _ I).
+    + eapply isQ_ids_mono; [apply (si_total _ _ I)| |exact G4]. apply incl_app; [apply incl_appl|apply incl_appr, incl_refl].
+      apply incl_map. intros a Ha. apply (Permutation_in _ (Permutation_sym (sort_by_perm s_id ps))). exact Ha.
+  - apply (P7 b G2).
+Qed.
+
+Lemma move_sinv x h v : SInv c x -> TInv c x -> SInv c (move_to_next_leader c wm shut x h v).
+Proof.
+  intros I TI. unfold move_to_next_leader.
+  destruct (N.eqb_spec h (t_h (tc_t x))) as [Eh|Eh]; cbn [andb negb]; [|exact I].
+  destruct (N.eqb_spec v (tc_v x)) as [Ev|Ev]; cbn [negb]; [|exact I].
+  unfold init_view. destruct (N.ltb_spec (wrap64 (v + 1)) (tc_v x)) as [Hw|Hw]; [exact I|].
+  assert (Ew : wrap64 (v + 1) = v + 1) by (apply wrap64_succ_ge; lia).
+  set (x1 := tc_emit (OArm _ _) (tc_set_v (wrap64 (v + 1)) x)).
+  assert (I1 : SInv c x1) by (apply SInv_emit, SInv_set_v; [exact Hw|exact I]).
+  destruct (snd _); [apply SInv_emit; exact I1|].
+  cbn [tc_v x1 tc_emit tc_set_v].
+  destruct (N.eqb_spec (leaderOf (t_cm (tc_t x)) (wrap64 (v + 1))) (c_me c)) as [El|]; [|apply SInv_emit; exact I1].
+  set (x2 := if has_vc _ _ _ then x1 else _).
+  assert (I2 : SInv c x2 /\ tc_t x2 = tc_t x) by (subst x2; destruct (has_vc _ _ _); [auto|split; [apply SInv_emit; exact I1|reflexivity]]).
+  destruct I2 as [I2 E2].
+  apply check_elected_sinv.
+  - rewrite <- E2. apply SInv_store_vc; [exact I2|]. rewrite E2. unfold vc_good. cbn [v_view v_height v_proof v_snd].
+    split; [reflexivity|]. split; [reflexivity|].
+    destruct (t_prepared (tc_t x)) as [pv|] eqn:Ep.
+    + assert (Hpv : pv < wrap64 (v + 1)).
+      { destruct (si_prep _ _ I pv Ep) as (e & b & G1 & _). destruct (si_pp _ _ I pv e G1) as [_ L]. lia. }
+      destruct (extract_proof_spec x pv (wrap64 (v + 1)) I Ep Hpv) as (p & b & E & PS & Pv & Cm). rewrite E. cbn [fst snd].
+      split; [|exact Cm]. constructor; cbn [v_type v_inst v_snd my_sig s_id s_ok v_proof]; auto.
+      * apply (si_me _ _ I).
+      * intros p' Ep'. inversion Ep'; subst. exact PS.
+    + cbn [fst snd]. split; [|exact Logic.I]. constructor; cbn [v_type v_inst v_snd my_sig s_id s_ok v_proof]; auto.
+      * apply (si_me _ _ I).
+      * intros p' Ep'. discriminate.
+  - cbn [tc_set_t tc_t]. destruct (store_vc_hc (wrap64 (v + 1)) {| v_type := T_VIEW_CHANGE; v_inst := c_inst c; v_height := t_h (tc_t x); v_view := wrap64 (v + 1);
+        v_proof := match fst (match t_prepared (tc_t x) with Some pv => extract_proof c (tc_t x) pv | None => (None, false) end) with Some (p, _) => Some p | None => None end;
+        v_snd := my_sig c |} (match fst (match t_prepared (tc_t x) with Some pv => extract_proof c (tc_t x) pv | None => (None, false) end) with Some (_, ob) => ob | None => None end) (tc_t x)) as [_ Ec].
+    rewrite Ec. exact El.
+Qed.
+
+Lemma thandle_sinv x m : SInv c x -> msg_height m = t_h (tc_t x) -> msg_sender m <> c_me c -> SInv c (thandle c wm shut x m).
+Proof.
+  intros I Hh Hs. destruct m; cbn [thandle msg_height msg_sender] in *.
+  - apply handle_pp_sinv; assumption.
+  - apply handle_p_sinv; assumption.
+  - apply handle_c_sinv; assumption.
+  - apply handle_vc_sinv; assumption.
+  - apply handle_nv_sinv; auto.
+Qed.
+
+Lemma start_term_sinv t lead fresh : total (t_cm t) < W64 -> isMember (t_cm t) (c_me c) = true ->
+  t_pp t = [] -> t_p t = [] -> t_vc t = [] -> t_prepared t = None ->
+  SInv c (start_term c wm shut {| tc_t := t; tc_v := 0; tc_fresh := fresh; tc_out := []; tc_commit := None |} lead).
+Proof.
+  intros Hw Hm Hpp Hp Hvc Hprep.
+  set (x := {| tc_t := t; tc_v := 0; tc_fresh := fresh; tc_out := []; tc_commit := None |}).
+  assert (I : SInv c x).
+  { constructor; cbn [x tc_t tc_v]; auto.
+    - intros v e He. unfold get_pp in He. rewrite Hpp in He. discriminate.
+    - intros v h s Hi. rewrite Hp in Hi. destruct Hi.
+    - intros v h. rewrite Hp. constructor.
+    - intros pv Hpv. congruence.
+    - intros v vt b Hi. rewrite Hvc in Hi. destruct Hi. }
+  unfold start_term, init_view. cbn [tc_v x]. cbn [N.ltb N.compare].
+  set (x1 := tc_emit _ (tc_set_v 0 x)).
+  assert (I1 : SInv c x1) by (apply SInv_emit, SInv_set_v; [cbn; lia|exact I]).
+  destruct (_ && _); [exact I1|].
+  destruct (N.eqb_spec (leaderOf (t_cm (tc_t x)) 0) (c_me c)) as [El|]; cbn [negb]; [|exact I1].
+  destruct (ctx_ok wm shut _); cbn [negb]; [|exact I1].
+  apply SInv_emit, SInv_emit.
+  pose proof (SInv_store_pp c (tc_bump x1) 0 {| pe_ref := mk_ref T_PREPREPARE c (t_h (tc_t x)) 0 (fresh_id (c_me c) (tc_fresh x1));
+       pe_snd := my_sig c; pe_blk := Some {| b_height := t_h (tc_t x); b_id := fresh_id (c_me c) (tc_fresh x1); b_bad := [] |} |} (SInv_bump _ _ I1)) as P.
+  apply P; [|cbn; lia].
+  constructor; cbn [pe_ref pe_snd pe_blk mk_ref r_view r_type r_inst r_height r_hash my_sig s_ok s_id tc_bump tc_t x1 tc_emit tc_set_v x]; auto.
+  intros bb Ebb. inversion Ebb; subst. unfold commitsTo. cbn. rewrite !N.eqb_refl. reflexivity.
+Qed.
+
+End StorageInvProofs2.
+
+Theorem trun_sinv c wm0 shut0 H cm fresh lead evs : total cm < W64 -> isMember cm (c_me c) = true -> Forall (tev_ok c H) evs ->
+  SInv c (trun c wm0 shut0 H cm fresh lead evs).
+Proof.
+  intros Hw Hm F.
+  unfold trun in *.
+  assert (S0 : SInv c (tstart c wm0 shut0 H cm fresh lead) /\ TInv c (tstart c wm0 shut0 H cm fresh lead) /\
+               t_h (tc_t (tstart c wm0 shut0 H cm fresh lead)) = H).
+  { split; [apply start_term_sinv; auto|]. split; [apply start_term_inv; auto|].
+    destruct (start_term_hc c wm0 shut0 {| tc_t := new_tstate H cm; tc_v := 0; tc_fresh := fresh; tc_out := []; tc_commit := None |} lead) as [A _]. exact A. }
+  revert S0 F. generalize (tstart c wm0 shut0 H cm fresh lead). clear Hw Hm.
+  induction evs as [|e evs IH]; intros x (SI & TI & Eh) F; cbn [fold_left]; [exact SI|].
+  inversion F as [|? ? Fe Fr]; subst. apply IH; [|exact Fr].
+  destruct (tstep_hc c x e) as [A _].
+  destruct e as [m wm' shut'|h v wm' shut']; cbn [tstep] in *.
+  - destruct Fe as [F1 F2]. split; [apply thandle_sinv; auto; congruence|]. split; [apply thandle_inv; auto; congruence|congruence].
+  - split; [apply move_sinv; assumption|]. split; [apply move_inv; assumption|congruence].
+Qed.
+
+(* ====================================================================================================
+   C09: the view change carries the lock
+   ==================================================================================================== *)
+Section C09.
+Variable c : ncfg.
+Variable wm : option hv.
+Variable shut : bool.
+
+Definition is_mvc (o : out) : bool := match o with OSend _ (MVC _ _) => true | _ => false end.
+Definition no_new_mvc (x x' : tc) : Prop := forall o, is_mvc o = true -> In o (tc_out x') -> In o (tc_out x).
+
+Ltac nomvc_tac :=
+  repeat match goal with
+  | |- context [if ?b then _ else _] => destruct b
+  | |- context [match ?b with Some _ => _ | None => _ end] => destruct b
+  | |- context [match ?b with (_, _) => _ end] => destruct b
+  | |- context [match ?b with [] => _ | _ :: _ => _ end] => destruct b
+  end;
+  let o' := fresh "o" in let Ho := fresh "Ho" in let Hi := fresh "Hi" in
+  intros o' Ho Hi;
+  cbn [tc_out tc_emit tc_set_t tc_set_v tc_bump tc_committed send_all In] in Hi;
+  repeat (destruct Hi as [Hi|Hi]; [subst o'; discriminate Ho|]); try exact Hi.
+
+Lemma on_elected_nomvc x v vs : no_new_mvc x (on_elected c wm shut x v vs).
+Proof. unfold on_elected, init_view. nomvc_tac. Qed.
+Lemma check_elected_nomvc x v : no_new_mvc x (check_elected c wm shut x v).
+Proof.
+  unfold check_elected. destruct (N.leb _ _); [intros o _ H; exact H|].
+  destruct (votes_of _ _); [intros o _ H; exact H|]. destruct (isQ_ids _ _); [apply on_elected_nomvc|intros o _ H; exact H].
+Qed.
+
+(* first sentence: the VIEW_CHANGE a node sends when its timer fires carries a valid proof of its prepared view
+   together with the matching block (and no proof, no block, if it is not prepared) *)
+Theorem vote_carries_lock x h v to vt blk : SInv c x ->
+  In (OSend to (MVC vt blk)) (tc_out (move_to_next_leader c wm shut x h v)) -> ~ In (OSend to (MVC vt blk)) (tc_out x) ->
+  v_view vt = tc_v x + 1 /\ v_height vt = t_h (tc_t x) /\ v_type vt = T_VIEW_CHANGE /\ v_inst vt = c_inst c /\
+  v_snd vt = my_sig c /\ to = [leaderOf (t_cm (tc_t x)) (v_view vt)] /\
+  match t_prepared (tc_t x) with
+  | Some pv => exists p b, v_proof vt = Some p /\ proof_spec c (t_cm (tc_t x)) (t_h (tc_t x)) (v_view vt) p /\
+                           r_view (pf_ppref p) = pv /\ blk = Some b /\ commitsTo (t_h (tc_t x)) blk (r_hash (pf_ppref p)) = true
+  | None => v_proof vt = None /\ blk = None
+  end.
+Proof.
+  intros I Hin Hnot. unfold move_to_next_leader in Hin.
+  destruct (N.eqb_spec h (t_h (tc_t x))) as [Eh|Eh]; cbn [andb negb] in Hin; [|contradiction].
+  destruct (N.eqb_spec v (tc_v x)) as [Ev|Ev]; cbn [negb] in Hin; [|contradiction].
+  unfold init_view in Hin. destruct (N.ltb_spec (wrap64 (v + 1)) (tc_v x)) as [Hw|Hw]; [contradiction|].
+  assert (Ew : wrap64 (v + 1) = tc_v x + 1) by (rewrite Ev in *; apply wrap64_succ_ge; lia).
+  set (res := match t_prepared (tc_t x) with Some pv => extract_proof c (tc_t x) pv | None => (None, false) end) in *.
+  assert (Hres : match t_prepared (tc_t x) with
+                 | Some pv => exists p b, res = (Some (p, Some b), false) /\
+                       proof_spec c (t_cm (tc_t x)) (t_h (tc_t x)) (wrap64 (v + 1)) p /\ r_view (pf_ppref p) = pv /\
+                       commitsTo (t_h (tc_t x)) (Some b) (r_hash (pf_ppref p)) = true
+                 | None => res = (None, false) end).
+  { subst res. destruct (t_prepared (tc_t x)) as [pv|] eqn:Ep; [|reflexivity].
+    assert (Hpv : pv < wrap64 (v + 1)).
+    { destruct (si_prep _ _ I pv Ep) as (e & b & G1 & _). destruct (si_pp _ _ I pv e G1) as [_ L]. lia. }
+    apply extract_proof_spec; assumption. }
+  assert (Hsnd : snd res = false) by (destruct (t_prepared (tc_t x)); [destruct Hres as (p & b & E & _); rewrite E|rewrite Hres]; reflexivity).
+  rewrite Hsnd in Hin. cbn [tc_v tc_emit tc_set_v] in Hin.
+  destruct (N.eqb _ (c_me c)).
+  - exfalso. apply Hnot. apply (check_elected_nomvc _ _ (OSend to (MVC vt blk)) eq_refl) in Hin.
+    cbn [tc_out tc_set_t] in Hin. destruct (has_vc _ _ _); cbn [tc_out tc_emit tc_set_v In] in Hin;
+      repeat (destruct Hin as [Hin|Hin]; [discriminate Hin|]); exact Hin.
+  - cbn [tc_out tc_emit tc_set_v In] in Hin. destruct Hin as [E|[E|Hin]]; [|discriminate E|contradiction].
+    inversion E; subst to vt blk. cbn [v_view v_height v_type v_inst v_snd v_proof]. rewrite Ew.
+    repeat (split; [reflexivity|]).
+    destruct (t_prepared (tc_t x)) as [pv|].
+    + destruct Hres as (p & b & Er & PS & Pv & Cm). rewrite Er. cbn [fst]. exists p, b. rewrite Ew in PS. auto.
+    + rewrite Hres. cbn [fst]. auto.
+Qed.
+
+(* second sentence: the NEW_VIEW a node sends when elected embeds exactly the votes it has stored for that view, and
+   proposes the block of a stored vote whose prepared proof has the highest view; it asks the consumer for a fresh
+   block only if no stored vote carries a proof *)
+Theorem newview_embeds_counted_votes x v to ty i h nv vs s pp pps b : SInv c x ->
+  In (OSend to (MNV ty i h nv vs s pp pps b)) (tc_out (check_elected c wm shut x v)) ->
+  ~ In (OSend to (MNV ty i h nv vs s pp pps b)) (tc_out x) ->
+  nv = v /\ vs = map fst (votes_of (tc_t x) v) /\ ty = T_NEW_VIEW /\ i = c_inst c /\ h = t_h (tc_t x) /\ s = my_sig c /\ pps = my_sig c /\
+  isQ_ids (t_cm (tc_t x)) (map (fun e => s_id (v_snd (fst e))) (votes_of (tc_t x) v)) = true /\
+  r_type pp = T_PREPREPARE /\ r_view pp = v /\ r_height pp = t_h (tc_t x) /\
+  ((exists vt p bb, In (vt, Some bb) (votes_of (tc_t x) v) /\ v_proof vt = Some p /\
+        (forall vt' q, In vt' (map fst (votes_of (tc_t x) v)) -> v_proof vt' = Some q -> r_view (pf_ppref q) <= r_view (pf_ppref p)) /\
+        r_hash pp = r_hash (pf_ppref p) /\ b = Some bb /\ commitsTo (t_h (tc_t x)) b (r_hash pp) = true)
+   \/ ((forall vt', In vt' (map fst (votes_of (tc_t x) v)) -> v_proof vt' = None) /\
+       b = Some {| b_height := t_h (tc_t x); b_id := fresh_id (c_me c) (tc_fresh x); b_bad := [] |} /\ r_hash pp = fresh_id (c_me c) (tc_fresh x))).
+Proof.
+  intros I Hin Hnot. unfold check_elected in Hin.
+  destruct (N.leb _ _); [contradiction|].
+  destruct (votes_of (tc_t x) v) as [|e0 r0] eqn:Evs; [contradiction|].
+  destruct (isQ_ids _ _) eqn:Eq; [|contradiction]. rewrite <- Evs in *.
+  unfold on_elected, init_view in Hin. cbn [tc_set_t tc_v] in Hin.
+  destruct (N.ltb v (tc_v x)); [cbn in Hin; contradiction|].
+  pose proof (latest_block_aux_spec (votes_of (tc_t x) v)) as LB. unfold latest_block in Hin.
+  assert (VG : forall vt ob, In (vt, ob) (votes_of (tc_t x) v) -> vc_good c (tc_t x) v vt ob)
+    by (intros vt ob Hi; apply (si_vc _ _ I); apply votes_of_In; exact Hi).
+  destruct (latest_block_aux (votes_of (tc_t x) v)) as [[[vt p] bb]|].
+  - destruct LB as (Hvin & Ep & Hmax).
+    cbn [tc_out tc_emit tc_set_t tc_set_v send_all tc_t set_latest t_h] in Hin.
+    assert (Hin' : MNV T_NEW_VIEW (c_inst c) (t_h (tc_t x)) v (map fst (votes_of (tc_t x) v)) (my_sig c)
+           (mk_ref T_PREPREPARE c (t_h (tc_t x)) v (r_hash (pf_pref p))) (my_sig c) (Some bb) = MNV ty i h nv vs s pp pps b).
+    { destruct (has_pp _ _); cbn [tc_out tc_emit tc_set_t tc_set_v In] in Hin;
+        repeat (destruct Hin as [Hin|Hin]; [first [inversion Hin; reflexivity|discriminate Hin]|]); contradiction. }
+    inversion Hin'; subst. cbn [mk_ref r_type r_view r_height r_hash].
+    destruct (VG _ _ Hvin) as (_ & _ & VS & BC). rewrite Ep in BC.
+    destruct (vs_proof _ _ _ _ _ VS p Ep) as [_ _ _ [_ Sh] _ _ _ _ _].
+    repeat (split; [first [reflexivity|assumption]|]). left. exists vt, p, bb.
+    split; [exact Hvin|]. split; [exact Ep|]. split.
+    + intros vt' q Hi' Eq'. apply in_map_iff in Hi'. destruct Hi' as [[vt'' ob] [E1 Hi']]. cbn in E1. subst vt''.
+      destruct (VG _ _ Hi') as (_ & _ & _ & BC'). rewrite Eq' in BC'. destruct ob as [b'|]; [|contradiction].
+      eapply Hmax; eauto.
+    + split; [exact Sh|]. split; [reflexivity|]. rewrite Sh. exact BC.
+  - destruct (ctx_ok wm shut _); cbn [negb] in Hin; [|cbn in Hin; destruct Hin as [E|Hin]; [discriminate E|contradiction]].
+    cbn [tc_out tc_emit tc_set_t tc_set_v tc_bump send_all tc_t tc_fresh set_latest t_h b_id] in Hin.
+    assert (Hin' : MNV T_NEW_VIEW (c_inst c) (t_h (tc_t x)) v (map fst (votes_of (tc_t x) v)) (my_sig c)
+           (mk_ref T_PREPREPARE c (t_h (tc_t x)) v (fresh_id (c_me c) (tc_fresh x))) (my_sig c)
+           (Some {| b_height := t_h (tc_t x); b_id := fresh_id (c_me c) (tc_fresh x); b_bad := [] |}) = MNV ty i h nv vs s pp pps b).
+    { destruct (has_pp _ _); cbn [tc_out tc_emit tc_set_t tc_set_v tc_bump In] in Hin;
+        repeat (destruct Hin as [Hin|Hin]; [first [inversion Hin; reflexivity|discriminate Hin]|]); contradiction. }
+    inversion Hin'; subst. cbn [mk_ref r_type r_view r_height r_hash].
+    repeat (split; [first [reflexivity|assumption]|]). right. split; [|split; reflexivity].
+    intros vt' Hi'. apply in_map_iff in Hi'. destruct Hi' as [[vt'' ob] [E1 Hi']]. cbn in E1. subst vt''.
+    destruct (VG _ _ Hi') as (_ & _ & _ & BC'). destruct (v_proof vt') as [q|] eqn:Eq'; [|reflexivity].
+    destruct ob as [b'|]; [|contradiction]. exfalso. eapply LB; eauto.
+Qed.
+End C09.
+
+Lemma counted_votes_valid c x v vt b : SInv c x -> In (v, (vt, b)) (t_vc (tc_t x)) -> vc_good c (tc_t x) v vt b.
+Proof. intros I. exact (si_vc c x I v vt b). Qed.
